@@ -469,11 +469,11 @@ func c10table() map[string][]guardSpec {
 				return hasField(parts, "Root") && hasCallNamed(env.f, parts, "ReadSectorRoot") > 0
 			}),
 		},
-		"RPCVerifySector":  {verifier("leaf-proof", "VerifyLeafProof", []int{2, 3}, "the leaf is not proven for the locally chosen index and root")},
-		"RPCFreeSectors":   {verifier("free-proof", "VerifyFreeSectorsProof", []int{2, 3, 4}, "the new root is not proven to be the old root minus the requested sectors"), hostSig("revision", "ContractSigHash", "")},
-		"RPCAppendSectors": {cond("accepted-count", "the accepted list may be shorter than the request", lenOfField("Accepted")), verifier("append-proof", "VerifyAppendSectorsProof", []int{0, 2, 3}, "the new root is not proven to be the old root plus the accepted sectors"), hostSig("revision", "ContractSigHash", "")},
-		"RPCSectorRoots":   {validateReq("an invalid range is requested"), cond("roots-count", "a response with a number of roots different from the requested length reaches the proof verifier, which panics on it instead of the call returning an error", lenOfField("Roots")), verifier("roots-proof", "VerifySectorRootsProof", []int{2, 3, 4, 5}, "the listed roots are not proven against the contract's root for the requested range"), hostSig("revision", "ContractSigHash", "")},
-		"RPCFundAccounts":  {cond("balances-count", "fewer balances than deposits are indexed", lenOfField("Balances")), hostSig("revision", "ContractSigHash", "")},
+		"RPCVerifySector":      {verifier("leaf-proof", "VerifyLeafProof", []int{2, 3}, "the leaf is not proven for the locally chosen index and root")},
+		"RPCFreeSectors":       {verifier("free-proof", "VerifyFreeSectorsProof", []int{2, 3, 4}, "the new root is not proven to be the old root minus the requested sectors"), hostSig("revision", "ContractSigHash", "")},
+		"RPCAppendSectors":     {cond("accepted-count", "the accepted list may be shorter than the request", lenOfField("Accepted")), verifier("append-proof", "VerifyAppendSectorsProof", []int{0, 2, 3}, "the new root is not proven to be the old root plus the accepted sectors"), hostSig("revision", "ContractSigHash", "")},
+		"RPCSectorRoots":       {validateReq("an invalid range is requested"), cond("roots-count", "a response with a number of roots different from the requested length reaches the proof verifier, which panics on it instead of the call returning an error", lenOfField("Roots")), verifier("roots-proof", "VerifySectorRootsProof", []int{2, 3, 4, 5}, "the listed roots are not proven against the contract's root for the requested range"), hostSig("revision", "ContractSigHash", "")},
+		"RPCFundAccounts":      {cond("balances-count", "fewer balances than deposits are indexed", lenOfField("Balances")), hostSig("revision", "ContractSigHash", "")},
 		"RPCReplenishAccounts": {perDeposit, total, hostSig("revision", "ContractSigHash", "")},
 		"RPCReplenishPools":    {cond("deposits-count", "the host may pad or truncate the deposit list", lenOfField("Deposits")), perDeposit, total, hostSig("revision", "ContractSigHash", "")},
 		"RPCFormContract": {
@@ -490,6 +490,16 @@ func c10table() map[string][]guardSpec {
 	}
 }
 
+// renterView: a renter RPC function with its helpers and local closures
+// expanded; the functions the table names and the round-trip helper stay calls.
+func renterView(c *Ctx, f *ir.Func) *ir.Func {
+	table := c10table()
+	return c.P.Views("rhp", ir.ExpandOpt{Key: "renter-rpcs", Stop: func(fn *types.Func) bool {
+		_, unit := table[fn.Name()]
+		return unit || fn.Name() == "callSingleRoundtripRPC"
+	}}).Of(f)
+}
+
 func c10r1(c *Ctx) {
 	table := c10table()
 	names := make([]string, 0, len(table))
@@ -498,7 +508,7 @@ func c10r1(c *Ctx) {
 	}
 	sortStrings(names)
 	for _, name := range names {
-		f := c.P.Fn("rhp", "", name)
+		f := renterView(c, c.P.Fn("rhp", "", name))
 		env := newRenterEnv(c.P, f)
 		c.VisitGraph(f)
 		for _, g := range table[name] {
@@ -533,7 +543,7 @@ func sortStrings(s []string) {
 func c10r2(c *Ctx) {
 	names := []string{"RPCFreeSectors", "RPCAppendSectors", "RPCSectorRoots", "RPCFundAccounts", "RPCReplenishAccounts", "RPCReplenishPools", "RPCFormContract", "RPCRenewContract", "rpcRefreshContract"}
 	for _, name := range names {
-		f := c.P.Fn("rhp", "", name)
+		f := renterView(c, c.P.Fn("rhp", "", name))
 		env := newRenterEnv(c.P, f)
 		g := f.Graph()
 		c.VisitGraph(f)
